@@ -65,7 +65,7 @@ func gen(g *fw.GenCtx) {
 		f8 = append(f8, genF1(g, mk("F1/assign", 150, 700))...)
 	}
 	if famEnabled("F2") {
-		f8 = append(f8, genF2(g, mk("F2/builtin", 1, 3000))...)
+		f8 = append(f8, genF2(g, mk("F2/builtin", 1, 3000), mk("F2/builtin-huge-count", 1, 1))...)
 	}
 	if famEnabled("F3") {
 		f8 = append(f8, genF3(g, mk("F3/recursion", 1, 1))...)
